@@ -72,8 +72,10 @@ def type0_font(enc, ordering="Identity", tu=None, w=None, dw=None, w2=None, dw2=
                subtype="CIDFontType2", tu_name=None):
     """-> (font dict, extra objects)"""
     from ..realise.pdfwriter import Name, Ref, Stream
+    # /MissingWidth belongs to simple fonts; for a CID font the default is /DW (1000 when absent) - a non-zero value here
+    # must never show up in an advance
     desc = {"Type": Name("FontDescriptor"), "FontName": Name("VerifCID"), "Flags": 4, "FontBBox": [0, -200, 1000, 800],
-            "ItalicAngle": 0, "Ascent": 800, "Descent": -200, "StemV": 80}
+            "ItalicAngle": 0, "Ascent": 800, "Descent": -200, "StemV": 80, "MissingWidth": 700}
     objs = {}
     if fontfile2 is not None:
         objs[102] = Stream({"Length1": len(fontfile2)}, fontfile2)
@@ -608,10 +610,10 @@ def widths_worker(batch):
             if with_doc:
                 fa, fb = W_FORMS[with_doc % 5], W_FORMS[(with_doc + 2) % 5]     # indirectness rotates over the documents
                 if r["mode"] == "W":
-                    f += widths_doc(arr, exp, "W", 500 if (len(arr) % 2) else None, fa)
+                    f += widths_doc(arr, exp, "W", [None, 500, 0][with_doc % 3], fa)            # /DW absent, 500, explicit 0
                     f += widths_doc(arr_r, exp_r, "W", 499.5, fb)
                 else:
-                    f += widths_doc(arr, exp, "W2", [800, -900] if (len(arr) % 2) else None, fa)
+                    f += widths_doc(arr, exp, "W2", [None, [800, -900], [880, 0]][with_doc % 3], fa)   # DW2 absent, given, w1y 0
                     f += widths_doc(arr_r, exp_r, "W2", [880.5, -999.5], fb)
         out.append((f, drift))
     return out
@@ -666,6 +668,9 @@ SETUPS = {
     # real-valued metrics: the model writes these setups in halves (den = 2)
     "H-real": dict(enc="Identity-H", w=[1, [250.5], 2, 2, 600.5], dw=499.5),
     "V-real": dict(enc="Identity-V", w2=[1, [-500.5, 300.5, 700.5], 3, 3, -750.5, 500.5, 880.5], dw2=[880.5, -999.5]),
+    # an explicit default of 0 (with /MissingWidth 700 in the descriptor, which must play no role)
+    "H-dw0": dict(enc="Identity-H", w=[1, [250]], dw=0),
+    "V-dw0": dict(enc="Identity-V", w2=[1, [-500, 300, 700]], dw2=[880, 0]),
     # text-state parameters (font size 10: Tc 0.5 = 50, Tw 2 = 200 thousandths of the font size; Tz 200 = scale 2)
     "H-ts": dict(enc="Identity-H", w=[1, [250], 2, 2, 600], dw=500, pre=b"0.5 Tc 2 Tw 200 Tz 3 Ts"),
     "V-ts": dict(enc="Identity-V", w2=[1, [-500, 300, 700], 3, 3, -750, 500, 880], pre=b"0.5 Tc 2 Tw 3 Ts"),
@@ -676,7 +681,7 @@ SETUPS = {
 def direction_a_placement(ck, fut):
     from ..realise import fontpdf as fp
     res, emit = fut
-    ck.add_tlc(res, "Placement: 10 setups (2 real-valued, 3 with Tc/Tw/Tz/Ts) x strings <= 3 over CIDs {1,2,3,32}")
+    ck.add_tlc(res, "Placement: 12 setups (2 real-valued, 2 with default 0, 3 with Tc/Tw/Tz/Ts) x strings <= 3 over CIDs {1,2,3,32}")
     if not res.ok:
         return model_violation(ck, res, "Placement")
     require_coverage(res, ["AShow"])
